@@ -63,8 +63,8 @@ CLAIMED = {
     ),
     "C01": (
         "exploration",
-        "complete product of 26 rule classes x every n (both parities; quick 1..41, thorough 1..128, plus -1/0/1 and even n for odd-only rules) x extra-parameter alphabets x every polynomial degree 0..nominal, against exact moments and multiprecision re-typed closed-form definitions (weights = step x mp.diff of the node map; g'(x_i) w_i for the Trefethen maps); declared domain of every class against the interval its definition lives on; per-weight relative tolerance for rules whose weights span many orders of magnitude",
-        "All sizes up to the bound and all degrees up to the nominal one are enumerated (thorough 1.1e6 comparisons), so parity-dependent and size-dependent slips (series truncation, halved end weights, sign patterns) are decided for every n up to 128 rather than at n=10.",
+        "complete product of 26 rule classes x every n (both parities; quick 1..41, thorough 1..128, plus -1/0/1, even n for odd-only rules and, for the series-defined and closed-form Chebyshev-type rules, sizes around 128/192/256 (thorough up to 600)) x extra-parameter alphabets x every polynomial degree 0..nominal, against exact moments and multiprecision re-typed closed-form definitions (weights = step x mp.diff of the node map; g'(x_i) w_i for the Trefethen maps); declared domain of every class against the interval its definition lives on; per-weight relative tolerance for rules whose weights span many orders of magnitude",
+        "All sizes up to the bound and all degrees up to the nominal one are enumerated (thorough 1.1e6 comparisons), so parity-dependent and size-dependent slips (series truncation, halved end weights, sign patterns) are decided for every n up to 128 (and at sizes around the block lengths 64..256 a blocked series summation would use) rather than at n=10.",
         "Gauss nodes come from NumPy/SciPy root finders (tolerance 1e5 eps x natural scale, others 1e4 eps); parameter combinations whose defining node map is not representable in float64 are inadmissible (counted, named in the evidence).",
         "DESIGN.md 3/C01",
     ),
